@@ -111,77 +111,27 @@ impl super::MainState {
                         if can_send {
                             use PrivMsgTargetType::*;
                             if !(target_type & ChannelAllSpecial).is_empty() {
-                                // send to special users
-                                if !(target_type & ChannelFounder).is_empty() {
-                                    if let Some(ref founders) = chanobj.modes.founders {
-                                        founders.iter().try_for_each(|u| {
-                                            if u != user_nick {
-                                                state.users.get(u).unwrap().send_msg_display(
-                                                    &conn_state.user_state.source,
-                                                    &msg_str,
-                                                )
-                                            } else {
-                                                Ok(())
-                                            }
-                                        })?;
+                                // send to special users: every member that has at least one of
+                                // the named statuses, exactly once (a member can have many of them).
+                                chanobj.users.iter().try_for_each(|(u, chum)| {
+                                    if u != user_nick
+                                        && ((!(target_type & ChannelFounder).is_empty() && chum.founder)
+                                            || (!(target_type & ChannelProtected).is_empty()
+                                                && chum.protected)
+                                            || (!(target_type & ChannelOper).is_empty()
+                                                && chum.operator)
+                                            || (!(target_type & ChannelHalfOper).is_empty()
+                                                && chum.half_oper)
+                                            || (!(target_type & ChannelVoice).is_empty() && chum.voice))
+                                    {
+                                        state.users.get(u).unwrap().send_msg_display(
+                                            &conn_state.user_state.source,
+                                            &msg_str,
+                                        )
+                                    } else {
+                                        Ok(())
                                     }
-                                }
-                                if !(target_type & ChannelProtected).is_empty() {
-                                    if let Some(ref protecteds) = chanobj.modes.protecteds {
-                                        protecteds.iter().try_for_each(|u| {
-                                            if u != user_nick {
-                                                state.users.get(u).unwrap().send_msg_display(
-                                                    &conn_state.user_state.source,
-                                                    &msg_str,
-                                                )
-                                            } else {
-                                                Ok(())
-                                            }
-                                        })?;
-                                    }
-                                }
-                                if !(target_type & ChannelOper).is_empty() {
-                                    if let Some(ref operators) = chanobj.modes.operators {
-                                        operators.iter().try_for_each(|u| {
-                                            if u != user_nick {
-                                                state.users.get(u).unwrap().send_msg_display(
-                                                    &conn_state.user_state.source,
-                                                    &msg_str,
-                                                )
-                                            } else {
-                                                Ok(())
-                                            }
-                                        })?;
-                                    }
-                                }
-                                if !(target_type & ChannelHalfOper).is_empty() {
-                                    if let Some(ref half_ops) = chanobj.modes.half_operators {
-                                        half_ops.iter().try_for_each(|u| {
-                                            if u != user_nick {
-                                                state.users.get(u).unwrap().send_msg_display(
-                                                    &conn_state.user_state.source,
-                                                    &msg_str,
-                                                )
-                                            } else {
-                                                Ok(())
-                                            }
-                                        })?;
-                                    }
-                                }
-                                if !(target_type & ChannelVoice).is_empty() {
-                                    if let Some(ref voices) = chanobj.modes.voices {
-                                        voices.iter().try_for_each(|u| {
-                                            if u != user_nick {
-                                                state.users.get(u).unwrap().send_msg_display(
-                                                    &conn_state.user_state.source,
-                                                    &msg_str,
-                                                )
-                                            } else {
-                                                Ok(())
-                                            }
-                                        })?;
-                                    }
-                                }
+                                })?;
                             } else {
                                 // send to all users
                                 chanobj.users.keys().try_for_each(|u| {
